@@ -579,14 +579,14 @@ func GenDamage(t *rapid.T, nfiles, maxLen, S int, ops []string) Damage {
 		d.Len = S
 		d.Seed = rapid.Uint64Range(0, 1<<16).Draw(t, "dseed")
 	case "overwrite", "insert", "remove":
-		d.Off = rapid.OneOf(rapid.IntRange(0, maxLen), rapid.IntRange(0, 2*S)).Draw(t, "off")
+		d.Off = rapid.OneOf(rapid.IntRange(0, maxLen), rapid.IntRange(0, 2*S), genBoundaryOff(maxLen, S)).Draw(t, "off")
 		d.Len = rapid.IntRange(1, 2*S+1).Draw(t, "len")
 		d.Seed = rapid.Uint64Range(0, 1<<16).Draw(t, "dseed")
 	case "flip":
 		d.Off = rapid.IntRange(0, maxLen).Draw(t, "off")
 		d.Seed = rapid.Uint64Range(0, 7).Draw(t, "bit")
 	case "truncate":
-		d.Off = rapid.IntRange(0, maxLen).Draw(t, "off")
+		d.Off = rapid.OneOf(rapid.IntRange(0, maxLen), genBoundaryOff(maxLen, S)).Draw(t, "off")
 	case "append", "appendzeros":
 		d.Len = rapid.IntRange(1, 2*S+1).Draw(t, "len")
 		d.Seed = rapid.Uint64Range(0, 1<<16).Draw(t, "dseed")
@@ -654,4 +654,25 @@ func ForgeCRC(b []byte, target uint32) {
 		b[n-4+k] = byte(reg) ^ byte(idx[k])
 		reg = tab[idx[k]] ^ (reg >> 8)
 	}
+}
+
+// genBoundaryOff draws offsets at the boundaries that matter: the 16 KiB hash prefix, slice multiples, end of file.
+func genBoundaryOff(maxLen, S int) *rapid.Generator[int] {
+	return rapid.Custom(func(t *rapid.T) int {
+		var v int
+		switch rapid.IntRange(0, 3).Draw(t, "bclass") {
+		case 0:
+			v = 16384 + rapid.IntRange(-1, 1).Draw(t, "d16k")
+		case 1:
+			v = S*rapid.IntRange(0, maxLen/S+1).Draw(t, "kS") + rapid.IntRange(-1, 1).Draw(t, "dS")
+		case 2:
+			v = maxLen - rapid.IntRange(0, 2).Draw(t, "fromEnd")
+		default:
+			v = rapid.IntRange(0, 2).Draw(t, "fromStart")
+		}
+		if v < 0 {
+			v = 0
+		}
+		return v
+	})
 }
